@@ -19,7 +19,7 @@ ENVS = {"avx2": {}, "sse": {"SONIC_MODE": "noavx2"}}
 # `unm_bytes` never sees the placement and is not in this set)
 NUMBER_PARSING = {"unm_any", "unm_anystd", "unm_int", "unm_i8", "unm_u64", "unm_f64", "unm_f32", "unm_sl",
                   "unm_ints", "unm_map", "unm_struct", "unm_structstd", "node_iface", "node_load",
-                  "ast_loads"}
+                  "ast_loads", "unm_arr2", "unm_starr"}
 # entry points whose scan of a string is the non-validating one (advance_string_default / skip_string_fast)
 NONVALIDATING_STRING = {"valid", "validstd", "skip", "get", "getf", "getk", "getfk", "geti", "getfi", "getki",
                         "unm_any", "unm_anynum", "unm_str", "unm_raw", "unm_sl", "unm_map", "unm_struct",
@@ -107,10 +107,12 @@ class C05(Spec):
         if tier == "quick":
             return [Stream("place", "c05.place", 1200, envs=ENVS, timeout=0.02),
                     Stream("sweep", "c05.sweep", 1000, envs=ENVS, timeout=0.02),
-                    Stream("malformed", "c05.bad", 600, envs=ENVS, timeout=0.02)]
+                    Stream("malformed", "c05.bad", 600, envs=ENVS, timeout=0.02),
+                    Stream("goscan", "c05.goscan", 1500, envs=ENVS, timeout=0.02)]
         return [Stream("place", "c05.place", 120000, envs=ENVS, timeout=0.01),
                 Stream("sweep", "c05.sweep", 160000, envs=ENVS, timeout=0.01),
-                Stream("malformed", "c05.bad", 60000, envs=ENVS, timeout=0.01)]
+                Stream("malformed", "c05.bad", 60000, envs=ENVS, timeout=0.01),
+                Stream("goscan", "c05.goscan", 40000, envs=ENVS, timeout=0.01)]
 
     # ------------------------------------------------------------------ verdict
     def judge(self, case, sonic, model):
@@ -143,6 +145,13 @@ class C05(Spec):
                 out.append(("fault", "%s: tail placement faulted (%s); heap=%s" % (env, t, v)))
             elif t != v:
                 out.append(("tail-differs", "%s: heap=%s tail=%s" % (env, v, t)))
+            pre = s.get("pre")
+            if pre is not None:
+                # (iv) input flush behind an unmapped page: a read in front of the input faults
+                if is_fault(pre) and not is_fault(v):
+                    out.append(("fault-pre", "%s: pre placement (input behind a PROT_NONE page) faulted (%s); heap=%s" % (env, pre, v)))
+                elif pre != v:
+                    out.append(("pre-differs", "%s: heap=%s pre=%s" % (env, v, pre)))
             m = model.get(env) or {}
             gf = m.get("gf")
             if gf is not None and (gf == "1") != is_fault(g):
@@ -218,14 +227,14 @@ class C05(Spec):
             if case[1] == "unm_bytes":
                 # sonic.Unmarshal([]byte) works on its own heap copy (`string(buf)`): the byte behind THAT copy is whatever
                 # the allocator left there, so even the heap answer for `…-0` flips between +0 and -0.0 from call to call
-                return (d["kind"] in ("guard-differs", "tail-differs") and doc.endswith(b"-0")
+                return (d["kind"] in ("guard-differs", "tail-differs", "pre-differs") and doc.endswith(b"-0")
                         and only_zero_sign_differs(d))
             if case[1] not in NUMBER_PARSING:
                 return False
             if d["kind"] == "fault":
                 # the byte behind the zero is unmapped: only exactly at the page edge
                 return case[3] == "0"
-            if d["kind"] in ("guard-differs", "tail-differs"):
+            if d["kind"] in ("guard-differs", "tail-differs", "pre-differs"):
                 # the byte behind the zero decides between the early return (+0) and the long path (-0.0):
                 # only `-0`, only when a placement shows `.`, `e` or `E` there
                 t = tail_of(case)
@@ -234,7 +243,7 @@ class C05(Spec):
 
         def open_string(d, params):
             case = d["case"]
-            if case[0] != "place" or d["kind"] not in ("guard-differs", "tail-differs"):
+            if case[0] != "place" or d["kind"] not in ("guard-differs", "tail-differs", "pre-differs"):
                 return False
             return case[1] in NONVALIDATING_STRING and open_string_mod32(doc_of(case))
 
@@ -244,7 +253,7 @@ class C05(Spec):
                 return False
             if d["kind"] == "fault":
                 return int(case[3]) <= 3
-            return d["kind"] in ("guard-differs", "tail-differs")
+            return d["kind"] in ("guard-differs", "tail-differs", "pre-differs")
 
         return {"trailing_zero_digit_at_page_edge": leading_zero,
                 "literal_in_input_shorter_than_dword": dword,
